@@ -64,7 +64,7 @@ def C08():
         "C08",
         units=[ContractUnit(ColWidths()), ContractUnit(InchToTwip()), ContractUnit(EncodeRows()), ContractUnit(CellAsRtf()), ContractUnit(RowAsRtf()),
                ContractUnit(EncodeSpanningRow()), ContractUnit(RenderBody(), variants=["levels1", "levels2", "no_boundaries"]),
-               ContractUnit(EncodeColumnHeader()), ContractUnit(RenderColumnHeaders()), _render_unit(quick=("groups1",), thorough=("groups2",)), _section_unit()]
+               ContractUnit(EncodeColumnHeader()), ContractUnit(RenderColumnHeaders()), _render_unit(quick=("groups1",), thorough=("groups2",)), _section_unit(), _prepare_unit()]
         + _note_units() + LEMMAS,
         level="proof",
         technique="comprehension invariant cum*total == col_width*P[i] (nonlinear real arithmetic) on the real Utils._col_widths; inductive lemma for prefix "
@@ -73,8 +73,9 @@ def C08():
                   "and the page's col_widths for the data rows; every column header is laid out on the table width with exactly one relative width per "
                   "header cell (inherited full-table widths are replaced by the displayed columns' widths)",
         trusted_base=[SOLVERS, ENGINE, "floats treated as reals (L3): 'within one twip' is exact in the model"],
-        assumptions=["width vectors reaching the section (RTFDocument.__init__ defaults/broadcast/inheritance, prepare_dataframe_for_body_encoding slicing) "
-                     "are separate carriers not yet under contract in this check; _encode_body_section turns them into the page boundaries (unit EncodeBodySection); "
+        assumptions=["width vectors set at construction (RTFDocument.__init__ defaults/broadcast/inheritance) are a separate carrier not yet under contract in "
+                     "this check; prepare_dataframe_for_body_encoding slices them to the displayed columns (unit PrepareFrame) and _encode_body_section turns "
+                     "them into the page boundaries (unit EncodeBodySection); "
                      "RenderColumnHeaders assumes their results: the page carries one relative width per displayed column and every header has widths",
                      "header labels are one per displayed column or one per own relative width (other shapes are configuration errors outside the property)",
                      "nested (multi-section) header lists are not covered by RenderColumnHeaders"],
@@ -286,6 +287,11 @@ def _section_unit():
     return ContractUnit(EncodeBodySection())
 
 
+def _prepare_unit():
+    from contracts.prepare import PrepareFrame
+    return ContractUnit(PrepareFrame())
+
+
 def _budget_units():
     from contracts.budget import UNITS, LEMMAS
     return [ContractUnit(u) for u in UNITS] + LEMMAS
@@ -306,14 +312,14 @@ def C02():
     from contracts.postprocess import ApplyDataPostProcessing
     return Property(
         "C02", units=[ContractUnit(EncodeRows()), ContractUnit(RenderBody()), ContractUnit(RowAsRtf()), ContractUnit(TextAsRtf()), ContractUnit(AssignPages()),
-                      ContractUnit(ApplyDataPostProcessing()), _section_unit()]
+                      ContractUnit(ApplyDataPostProcessing()), _section_unit(), _prepare_unit()]
         + _strategy_units(),
         level="proof",
         technique="row-view contracts: _assign_pages pages are consecutive intervals covering all rows; _render_body emits every page row exactly once in order; "
                   "_encode emits one Row per frame row whose cell j shows the display text of cell (i, j) in column order; Row._as_rtf keeps cell order; one delimiter space before the text",
         trusted_base=[SOLVERS, ENGINE, POLARS, "polars slice / df[a:b] row-interval semantics (assumed)"],
-        assumptions=["prepare_dataframe_for_body_encoding (column removal keeps rows and column order) is not yet under contract in this check: its result is "
-                     "assumed by EncodeBodySection; multi-section order likewise; calculate_row_metadata is used through AssignPages' ensures"],
+        assumptions=["PrepareFrame abstracts type(attrs).model_fields by representative fields and assumes the filter / select / unique-column-name contracts "
+                     "(KEPT enumeration); multi-section order is not yet under contract; calculate_row_metadata is used through AssignPages' ensures"],
         replayers={"pagination/core.py::PageBreakCalculator._assign_pages": replay_assign_pages,
                    "encoding/renderer.py::PageRenderer._render_body": D("cells"), "attributes.py::TableAttributes._encode": D("cells"),
                    "encoding/unified_encoder.py::": D("cells")},
@@ -366,12 +372,12 @@ def C09():
     return Property(
         "C09", units=[ContractUnit(Iloc()), ContractUnit(ToList()), ContractUnit(UpdateCell()), ContractUnit(EncodeRows()), ContractUnit(RenderBody()),
                       ContractUnit(PaginationBorders()), ContractUnit(CellAsRtf()), ContractUnit(BorderAsRtf()), ContractUnit(TextFormatting()),
-                      ContractUnit(ParagraphFormatting())] + LEMMAS + _strategy_units(),
+                      ContractUnit(ParagraphFormatting()), _prepare_unit(), _section_unit()] + LEMMAS + _strategy_units(),
         level="proof",
         technique="binding obligations at every constructor call of the real TableAttributes._encode: each formatting field of cell (i, j) is "
                   "attr.iloc(i + row_offset, j); BroadcastValue.iloc = value[r mod R][c mod C]; _render_body passes the page-relative offset; emitters emit every field",
         trusted_base=[SOLVERS, ENGINE, POLARS],
-        assumptions=["the attribute column slicing in prepare_dataframe_for_body_encoding after page_by/subline_by removal is not yet under contract in this check",
+        assumptions=["the attribute column slicing after page_by/subline_by removal is proved for representative fields of type(attrs).model_fields (unit PrepareFrame)",
                      "PaginationBorders uses a representative-field abstraction of type(page_attrs).model_fields (two border matrices + one generic matrix attribute)"],
         replayers={"attributes.py::BroadcastValue": R.replay_broadcast, "encoding/renderer.py::PageRenderer._render_body": D("row_offset"),
                    "attributes.py::TableAttributes._encode": D("row_offset")}, design_ref="4/C09, A5-A6")
